@@ -8,6 +8,12 @@ def units_simple(shards_q, shards_t=None, **kw):
         return [u]
     return f
 
+def units_with32(shards):
+    """main harness shards plus the pointer-width lane (harness32 interpreted by Miri for a 32-bit usize target)"""
+    def f(tier):
+        return [dict(shards=shards), dict(lane32=True)]
+    return f
+
 BOTH = ["chk", "rel"]
 
 PROPS = {
@@ -79,34 +85,34 @@ PROPS = {
         assumptions=["a panic is not a value", "2^64 domain covered on the boundary alphabet B64, histories to depth 2"],
     ),
     "C04": dict(
-        profiles=["chk"], level="exploration", units=units_simple(16),
+        profiles=["chk"], level="exploration", units=units_with32(16),
         rule=("all 65536 u16 for PageTableIndex/PageOffset new/new_truncate (exhaustive); every canonical B64 address and every address with "
               "one of the five fields (offset,p1..p4) running through ALL its values while the other four take {0,1,255,256,511}^4: "
               "p1..p4_index, page_offset, page_table_index(level) for the address and Page<4K/2M/1G>, and from_page_table_indices* as exact inverse, "
-              "against independently written shifts/masks; 4 levels for the level helpers. non-trivial = at least two non-zero fields."),
+              "against independently written shifts/masks; 4 levels for the level helpers. non-trivial = at least two non-zero fields. Pointer-width lane: the usize-dependent part (level helpers, integer views of indices, Step counts and distances beyond 2^32, ENTRY_COUNT arithmetic, ranges longer than 2^32 pages) re-checked on a reduced alphabet with the crate built for a 32-bit usize target (i686) and interpreted by Miri, which also aborts on undefined behaviour."),
         assumptions=["the full 512^4 x 4096 product is not enumerated (per-field exhaustive)"],
     ),
     "C05": dict(
-        profiles=BOTH, level="exploration", units=units_simple(16),
+        profiles=BOTH, level="exploration", units=units_with32(16),
         rule=("Step::{forward_checked,backward_checked,forward,backward,steps_between} for VirtAddr, Page<4K/2M/1G>, PageTableIndex against the "
               "position model pos(a)=a&(2^48-1): starts = canonical boundary set, counts = 0..4, every pairwise distance between boundary "
               "positions +-1 (in the unit), 2^47+-1, 2^48+-1, usize::MAX, count*SIZE overflow; all start pairs for steps_between; PageTableIndex "
               "all 512 x counts 0..=1024 (+large) exhaustively; mutual-inverse check on every successful step; forward_unchecked/backward_unchecked wherever "
               "the checked variant succeeds; core::ops::Range / RangeInclusive over VirtAddr and Page<S> of lengths 0..6 starting up to 5 positions before "
               "0 / the gap / the top: collect, rev, size_hint, count, nth, nth_back, step_by against the position model. non-trivial = the step crosses "
-              "a half boundary or fails."),
+              "a half boundary or fails. Pointer-width lane: the usize-dependent part (level helpers, integer views of indices, Step counts and distances beyond 2^32, ENTRY_COUNT arithmetic, ranges longer than 2^32 pages) re-checked on a reduced alphabet with the crate built for a 32-bit usize target (i686) and interpreted by Miri, which also aborts on undefined behaviour."),
         assumptions=["2^48 x 2^64 domain covered on boundary starts x boundary-distance counts, not exhaustively"],
     ),
     "C06": dict(
-        profiles=BOTH, level="exploration", units=units_simple(16),
+        profiles=BOTH, level="exploration", units=units_with32(16),
         rule=("align_down/align_up (raw, VirtAddr for 2^k<=2^47, PhysAddr) and is_aligned for all 64 power-of-two alignments x (WIDE = every u64 with "
               "<=3 set bits, <=3 clear bits, every contiguous run of ones, B64: ~90k values, + multiples of the alignment around 0, the gap, 2^52, 2^64, +-1) "
               "against u128 arithmetic incl. exact panic conditions; ~2000 non-powers of two must panic; Page/PhysFrame containing_address / "
-              "from_start_address for 3 sizes over WIDE and its sign-extended / 52-bit-truncated images. non-trivial = input not aligned."),
+              "from_start_address for 3 sizes over WIDE and its sign-extended / 52-bit-truncated images. non-trivial = input not aligned. Pointer-width lane: the usize-dependent part (level helpers, integer views of indices, Step counts and distances beyond 2^32, ENTRY_COUNT arithmetic, ranges longer than 2^32 pages) re-checked on a reduced alphabet with the crate built for a 32-bit usize target (i686) and interpreted by Miri, which also aborts on undefined behaviour."),
         assumptions=["2^64 domain covered on the bit-shape alphabet WIDE (exhaustive over values with <=3 set or <=3 clear bits and runs of ones), not on all 2^64 values"],
     ),
     "C07": dict(
-        profiles=BOTH, level="exploration", units=units_simple(16),
+        profiles=BOTH, level="exploration", units=units_with32(16),
         rule=("bounded exhaustive enumeration: every (valid value x B64 offset) pair for + - += -= and value-value "
               "differences of VirtAddr/PhysAddr/Page<S>/PhysFrame<S> (S = 4KiB,2MiB,1GiB; page counts also B64/SIZE+-1), in both "
               "build profiles, against u128 arithmetic; every range kind x size x anchor (start/end of each canonical half, "
@@ -114,7 +120,7 @@ PROPS = {
               "method a range type could override (nth, skip, step_by, count, last, size_hint, fold, min, max; k in 0..3, n-1, n, n+1, n+3, 2n+5, 511, 512, 2^20, "
               "usize::MAX) must agree with plain next(); thorough adds (WIDE addresses x small offsets) and (small addresses x WIDE offsets). Alphabets are "
               "sorted+deduplicated so cases are distinct by construction; non-trivial = exact result unrepresentable or above 2^47 "
-              "(arith), non-empty range (ranges)."),
+              "(arith), non-empty range (ranges). Pointer-width lane: the usize-dependent part (level helpers, integer views of indices, Step counts and distances beyond 2^32, ENTRY_COUNT arithmetic, ranges longer than 2^32 pages) re-checked on a reduced alphabet with the crate built for a 32-bit usize target (i686) and interpreted by Miri, which also aborts on undefined behaviour."),
         assumptions=["a panic is accepted for every arithmetic operator (statement: exact-or-panic); for ranges a panic is a violation",
                      "2^64 input domain covered on the boundary alphabet B64 (every single bit, every boundary +-2), not exhaustively"],
     ),
@@ -123,6 +129,8 @@ PROPS = {
 ENGINES = [
     {"name": "vh", "path": "/verif/harness", "serves_properties": sorted(PROPS.keys()),
      "kind_free_text": "Rust harness linking the crate from /repo; bounded exhaustive enumeration / explicit-state search over real code with reference models"},
+    {"name": "vh32", "path": "/verif/harness32", "serves_properties": ["C04", "C05", "C06", "C07"],
+     "kind_free_text": "pointer-width lane: bounded enumeration of the usize-dependent operations with the crate built for a 32-bit usize target (i686), interpreted by Miri (which also aborts on undefined behaviour)"},
 ]
 
 _ALL = ["C%02d" % i for i in range(1, 21)]
